@@ -54,6 +54,26 @@ from unified_planning.engines.compilers.utils import remove_fluents
 from unified_planning.engines.sequential_simulator import UPSequentialSimulator
 
 
+def _duration_in_interval(
+    lower: Fraction,
+    upper: Fraction,
+    left_open: bool,
+    right_open: bool,
+    min_time_step: Fraction,
+) -> Fraction:
+    """
+    Returns a duration inside the given (possibly open) duration interval: the lower
+    bound itself when the interval is left-closed, otherwise a value strictly above it
+    that still respects the upper bound.
+    """
+    if not left_open:
+        return lower
+    candidate = lower + min_time_step
+    if candidate < upper or (candidate == upper and not right_open):
+        return candidate
+    return (lower + upper) / 2
+
+
 def plan_back_conversion_callable(
     sp: SequentialPlan,
     problem: Problem,
@@ -103,31 +123,35 @@ def plan_back_conversion_callable(
         if isinstance(action_for_mapback, DurativeAction):
             tinterval = action_for_mapback.duration
             assert isinstance(tinterval, Interval)
-            dtime = min_time_step
-            if not tinterval.is_left_open():
-                if tinterval.lower.is_constant():
-                    dtime = Fraction(tinterval.lower.constant_value())
-                else:
-                    par_sub_dict: Dict = {}
-                    for paramname, paramvalue in zip(
-                        action_for_mapback.parameters,
-                        action_instance.actual_parameters,
-                    ):
-                        par_sub_dict[paramname] = paramvalue
-                    tlower_with_pars = tinterval.lower.substitute(par_sub_dict)
-                    flu_subs_dict: Dict = {}
-                    for flu_obj in fve.get(tlower_with_pars):
-                        if flu_obj.fluent() in pruned_fluents:
-                            flu_subs_dict[flu_obj] = original_state.get_value(flu_obj)
-                        else:
-                            flu_subs_dict[flu_obj] = state.get_value(flu_obj)
-                    tlower_constant = simplifier.simplify(
-                        tlower_with_pars.substitute(flu_subs_dict)
-                    )
-                    dtime = Fraction(tlower_constant.constant_value())
-            else:
-                # NOTE if open use min step
-                dtime = min_time_step
+
+            def evaluate_bound(bound: FNode) -> Fraction:
+                if bound.is_constant():
+                    return Fraction(bound.constant_value())
+                par_sub_dict: Dict = {}
+                for paramname, paramvalue in zip(
+                    action_for_mapback.parameters,
+                    action_instance.actual_parameters,
+                ):
+                    par_sub_dict[paramname] = paramvalue
+                bound_with_pars = bound.substitute(par_sub_dict)
+                flu_subs_dict: Dict = {}
+                for flu_obj in fve.get(bound_with_pars):
+                    if flu_obj.fluent() in pruned_fluents:
+                        flu_subs_dict[flu_obj] = original_state.get_value(flu_obj)
+                    else:
+                        flu_subs_dict[flu_obj] = state.get_value(flu_obj)
+                bound_constant = simplifier.simplify(
+                    bound_with_pars.substitute(flu_subs_dict)
+                )
+                return Fraction(bound_constant.constant_value())
+
+            dtime = _duration_in_interval(
+                evaluate_bound(tinterval.lower),
+                evaluate_bound(tinterval.upper),
+                tinterval.is_left_open(),
+                tinterval.is_right_open(),
+                min_time_step,
+            )
             ttptuples.append((time_now, new_action_instance, dtime))
             time_now = time_now + dtime + min_time_step
         elif isinstance(action_for_mapback, InstantaneousAction):
